@@ -544,7 +544,9 @@ def r3_truth_table(ctx: Context) -> None:
             got = f"raise {out.name}"
         else:
             val = out.value
-            if isinstance(val, Constructed) and val.cls == "RoundRobinScheduler" and val.args and (val.args[0] is given or (isinstance(val.args[0], Opaque) and val.args[0].tag == "samplers")):
+            same_seq = bool(isinstance(val, Constructed) and val.args and isinstance(val.args[0], (list, tuple)) and isinstance(given, list)
+                            and len(val.args[0]) == len(given) and all(a_ is b_ for a_, b_ in zip(val.args[0], given)))     # a tuple()/list() copy of the line-up
+            if isinstance(val, Constructed) and val.cls == "RoundRobinScheduler" and val.args and (val.args[0] is given or same_seq or (isinstance(val.args[0], Opaque) and val.args[0].tag == "samplers")):
                 got = "RoundRobinScheduler(samplers)"
             elif isinstance(val, Opaque) and val.tag == "scheduler":
                 got = "scheduler"
